@@ -202,10 +202,16 @@ class SolverWrapper:
             elif self.external_solver == "highs":
                 # HiGHS batched updates
                 import numpy as np  # local alias to ensure available
-                if self._pending_fix_vars:
-                    idxs = np.array([v.index for v in self._pending_fix_vars], dtype=np.int32)
-                    vals = np.array(self._pending_fix_vals, dtype=np.float64)
-                    self.solver.changeColsBounds(len(idxs), idxs, vals, vals)
+                # HiGHS rejects an index set with duplicates (and changes nothing): keep the last value queued for each column
+                fix_by_index = {}
+                for v, val in zip(self._pending_fix_vars, self._pending_fix_vals):
+                    fix_by_index[v.index] = val
+                if fix_by_index:
+                    idxs = np.array(sorted(fix_by_index), dtype=np.int32)
+                    vals = np.array([fix_by_index[i] for i in idxs], dtype=np.float64)
+                    status = self.solver.changeColsBounds(len(idxs), idxs, vals, vals)
+                    if status == highspy.HighsStatus.kError:
+                        raise RuntimeError(f"HiGHS changeColsBounds failed for {len(idxs)} queued variable fixes.")
                 if self._pending_lb_vars:
                     # HiGHS reads columns by set only for strictly increasing indices (otherwise it returns an error and
                     # zero-filled arrays): sort the queued columns and keep the largest lower bound queued for each
